@@ -16,6 +16,7 @@ import JanetModel.Parse.EofClean
 import JanetModel.Parse.PhysRun
 import JanetModel.Parse.PhysInsert
 import JanetModel.Parse.ErrOwn
+import JanetModel.Parse.StrIdxLemmas
 
 namespace JanetModel.Props.C11
 open JanetModel.Parse JanetModel.PP JanetModel.Gen.Parse
@@ -835,5 +836,40 @@ example : ¬ GenInv { eof (fun _ => none) (consume (fun _ => none) Parser.init 4
       rw [this] at h2; exact (Option.some.inj h2).symm
     subst hm
     exact absurd h3 (by unfold IsStatic; decide)
+
+/-! ### `stringend`'s re-indent loops at index level (session 4b)
+
+`Parse/StrIdx.lean` mirrors the two loops of `stringend` on a block of cells with the C's cursors `r`, `w`, `end`: first pass
+(`*r++`, the inner `for` with its `*r` reads, the `*r` / `*(r + 1)` CR-LF test), second pass rewriting IN PLACE (`*w++ = *r++`,
+the skipping `for`, the CR-LF copy).  Every read and write is a checked access inside `[0, bufcount)`.  `stringendM` (the physical
+machine's `stringend`) runs them, so `phys_api_history_safe` now covers them too. -/
+
+/-- ★ for every scratch contents and indent column: no checked access of the two loops fails (writes land on cells already read,
+    `w ≤ r < end`; the text still to be read is never overwritten) and the result is the list-level `dedent` of the logical model -/
+theorem stringend_loops_index_safe (col : Nat) (buf : List B) :
+    reindentI col buf = (if reindentCheck (buf.length + 1) col buf then reindent (buf.length + 1) col buf else buf, true) ∧
+    dedentI col buf = (dedent col buf, true) :=
+  ⟨reindentI_spec col buf, dedentI_spec col buf⟩
+
+/-- the in-place rewrite from any cursor position: `w ≤ r ≤ end`, enough fuel -- the block keeps its size, `w` stays inside, no check fails,
+    and the first `w'` cells are what was written before followed by the re-indented rest -/
+theorem stringend_rewrite_in_place (e ind fuel : Nat) (b : List B) (r w : Nat) (ok : Bool) (hl : b.length = e) (hw : w ≤ r) (hr : r ≤ e)
+    (hf : e - r < fuel) :
+    ∃ b' w', rewriteI e ind fuel b r w ok = (b', w', ok) ∧ b'.length = e ∧ w' ≤ e ∧ b'.take w' = b.take w ++ reindent fuel ind (b.drop r) :=
+  rewriteI_spec e ind fuel b r w ok hl hw hr hf
+
+/-- regenerated: the cursor dereferences / assignments of `stringend`'s long-string block in source order -- first pass `*r++`, the `for`
+    (`*r` in the condition, `*r` in the body), the CR-LF test (`*r`, `*(r + 1)`); second pass from `w = r = bufstart`: `*r`, `*w++ = *r++`,
+    the skipping `for` (`*r`), the CR-LF test and copy, the plain copy; `buflen = w - bufstart`: what `checkI` / `forCheckI` / `crlfAtI` /
+    `rewriteI` / `skipI` were written from (the translator refuses indexed accesses or other cursor arithmetic inside the block) -/
+theorem stringend_loop_source_ops : stringendLoopOps =
+    ["r=bufstart", "*r++", "*r", "*r", "*r", "*(r+1)", "w=bufstart", "r=bufstart", "*r", "*w++=*r++", "*r", "*r", "*(r+1)", "*w++=*r++",
+     "*w++=*r++", "buflen=(int32_t)(w-bufstart)"] := by decide
+
+-- non-vacuity: a text that is re-indented, CR-LF line ends kept; and the checks are live (a loop bound beyond the contents trips them)
+example : dedentI 2 [10, 32, 32, 97, 10, 32, 32, 13, 10, 32, 32, 98, 10] = ([97, 10, 13, 10, 98], true) := by decide
+example : (rewriteI 13 2 14 [10, 32, 32, 97, 10, 32, 32, 13, 10, 32, 32, 98, 10] 0 0 true).2.1 = 7 := by decide
+example : (checkI [10, 32] 3 2 4 0 true).2 = false := by decide
+example : (rewriteI 3 0 4 [97, 98] 0 0 true).2.2 = false := by decide
 
 end JanetModel.Props.C11
